@@ -143,7 +143,19 @@ def parse_calls(logfile):
             if rest.startswith("+++") or rest.startswith("---"):
                 continue
             if rest.endswith("<unfinished ...>"):
-                pending[tid] = rest[:-len("<unfinished ...>")].rstrip()
+                head = rest[:-len("<unfinished ...>")].rstrip()
+                if head.startswith("close("):
+                    # The kernel releases the descriptor when close() is entered; another thread can be handed the same number
+                    # (and strace can print that openat as completed) before this thread's "<... close resumed>" line appears.
+                    # Apply an interrupted close at its entry, otherwise the later resumption would drop the *new* file of that fd.
+                    c = Call()
+                    c.tid, c.name, c.line = tid, "close", lineno
+                    c.args = head[len("close("):].rstrip(", ")
+                    c.ret, c.retpath, c.err = 0, None, None
+                    pending[tid] = None
+                    yield c
+                    continue
+                pending[tid] = head
                 continue
             if rest.startswith("<... "):
                 mr = _RESUMED.match(rest)
